@@ -2,7 +2,7 @@
 # Must-fail corpus: applies seeded changes to scratch copies of /repo (removed afterwards) and expects the check to exit 1.
 # usage: selftest.sh            every seeded change, with the check recorded as catching it (own property first)
 #        selftest.sh Cxx        only the changes whose meta.json lists Cxx under detected_by, run against check Cxx
-# Prints one line per change: "<id> detected by <check>" | "<id> MISSED by <check> (exit=..)" | "<id> SKIPPED (...)".
+# Prints one line per change: "<id> detected by <check>" | "<id> UNDECIDED by <check> ..." | "<id> MISSED by <check> (exit=..)" | "<id> SKIPPED (...)".
 cd /verif
 want=${1:-}
 jobs=${SELFTEST_JOBS:-4}
@@ -20,7 +20,7 @@ else: print('$prop' if ('$prop' in db or not db) else db[0])")
   out=$(scripts/mutant.sh /verif/$d/patch.diff $chk --no-replay 2>&1)
   rc=$(echo "$out" | grep -o 'exit=[0-9]*' | tail -1)
   if echo "$out" | grep -q PATCH-FAILED; then echo "$id SKIPPED (patch does not apply to this tree)"; return; fi
-  if [ "$rc" = "exit=1" ]; then echo "$id detected by $chk"; else echo "$id MISSED by $chk ($rc)"; fi
+  if [ "$rc" = "exit=1" ]; then echo "$id detected by $chk"; elif [ "$rc" = "exit=2" ]; then echo "$id UNDECIDED by $chk (the changed code no longer matches the contract's names: no verdict, exit 2)"; else echo "$id MISSED by $chk ($rc)"; fi
 }
 export -f run_one
 ls -d seeded/C??.? 2>/dev/null | xargs -P $jobs -I{} bash -c "run_one {} '$want'"
